@@ -843,20 +843,23 @@ theorem sound_multiply (s : Sc) (carried : Option Rat) (S : St) (f : Fmt) (hp : 
 
 theorem lin_alg (b e D k : Rat) : b + (e - b) / D * k = b + (e - b) * k / D := by grind
 
-theorem MatchL_lin (b e D : Rat) (lastL : Leaf) (hl : lastL.val = some e) :
-    ∀ (init : List Leaf) (i : Nat), linOk b ((e - b) / D) i (init ++ [lastL]) = true →
-      MatchL ((List.range' i init.length).map (fun j => Val.num (b + (e - b) * ((j + 1 : Nat) : Rat) / D))
-          ++ [Val.num e]) ((init ++ [lastL]).map (·.val))
+theorem MatchL_lin (b e : Rat) (n : Nat) (lastL : Leaf) (hl : lastL.val = some e) :
+    ∀ (init : List Leaf) (i : Nat), linOk b ((e - b) / ((n + 1 : Nat) : Rat)) i (init ++ [lastL]) = true →
+      MatchL ((List.range' i init.length).map (fun j => Val.linv b e n (j + 1)) ++ [Val.num e])
+        ((init ++ [lastL]).map (·.val))
   | [], i, _ => by simp [MatchL, hl, Val.matches, isClose_refl]
   | l :: init, i, h => by
     simp only [List.cons_append, linOk, Bool.and_eq_true] at h
     simp only [List.length_cons, List.range'_succ, List.map_cons, List.cons_append, MatchL]
-    refine ⟨?_, MatchL_lin b e D lastL hl init (i + 1) h.2⟩
+    refine ⟨?_, MatchL_lin b e n lastL hl init (i + 1) h.2⟩
     have h1 := h.1
     split at h1
     · rename_i y hy
-      rw [hy, lin_alg] at *
-      simpa [Val.matches] using isclose_sound _ _ h1
+      rw [hy]
+      simp only [Val.matches, MontePyVerif.Spec.Shortcut.linValue, Bool.or_eq_true]
+      left
+      rw [lin_alg] at h1
+      exact isclose_sound _ _ h1
     · simp at h1
 
 theorem logv_matches (b e y : Rat) (n j : Nat) :
@@ -921,7 +924,7 @@ theorem interp_run (s : Sc) (b : Rat) (nodes : List Leaf) (e : Leaf) (S : St) (h
       · rename_i hlog
         have hlen2 : ((init ++ [e]).length : Rat) = ((init.length + 1 : Nat) : Rat) := by simp
         rw [hlen2] at hI
-        have hm := MatchL_lin b ev ((init.length + 1 : Nat) : Rat) e hev init 0 hI
+        have hm := MatchL_lin b ev init.length e hev init 0 hI
         refine ⟨⟨out ++ between b ev init.length false ++ [Val.num ev], some ev, none⟩, ?_, rfl,
           ⟨between b ev init.length false ++ [Val.num ev], by simp, ?_⟩, by simp [hev]⟩
         · simp only [hlog, runW, Word.toEntry, step, hg, hev, Option.map_some]
@@ -1208,10 +1211,21 @@ def PTok.inG : PTok → Bool
   | .rep (some 0) | .jmp (some 0) | .lin (some 0) | .log (some 0) => false
   | _ => true
 
-def PRel (acc : List PItem) (S : St) : Prop :=
-  S.pend = none ∧ (flatRevP acc).map PVal.toVal = S.out ∧ lastNum acc = S.prev
+/-- the number a symbolic linear interpolate stands for (the other values are kept as they are) -/
+def evalLin : Val → Val
+  | .linv a b n k => Val.num (MontePyVerif.Spec.Shortcut.linValue a b n k)
+  | v => v
 
-def finish (s : St) : Option (List Val) := if s.pend.isNone then some s.out else none
+@[simp] theorem evalLin_num (x : Rat) : evalLin (Val.num x) = Val.num x := rfl
+@[simp] theorem evalLin_jump : evalLin Val.jump = Val.jump := rfl
+@[simp] theorem evalLin_logv (a b : Rat) (n k : Nat) : evalLin (Val.logv a b n k) = Val.logv a b n k := rfl
+@[simp] theorem evalLin_linv (a b : Rat) (n k : Nat) :
+    evalLin (Val.linv a b n k) = Val.num (MontePyVerif.Spec.Shortcut.linValue a b n k) := rfl
+
+def PRel (acc : List PItem) (S : St) : Prop :=
+  S.pend = none ∧ (flatRevP acc).map PVal.toVal = S.out.map evalLin ∧ lastNum acc = S.prev
+
+def finish (s : St) : Option (List Val) := if s.pend.isNone then some (s.out.map evalLin) else none
 
 theorem flatP_reverse (acc : List PItem) : flatP acc.reverse = flatRevP acc := by
   induction acc with
@@ -1256,7 +1270,7 @@ theorem rel_repeat (acc acc' : List PItem) (S : St) (n : Option Nat) (h : PRel a
     obtain ⟨m, hm⟩ := getD_pos n hn
     refine ⟨⟨out ++ List.replicate (n.getD 1) (Val.num a), some a, none⟩, by simp [step], rfl, ?_, ?_⟩
     · simp only [flatRevP, PItem.vals, ← List.append_assoc, absorb_flat, List.map_append, h2, List.map_replicate,
-        PVal.toVal]
+        PVal.toVal, evalLin_num]
     · simp only [hm, List.replicate_succ', ← List.append_assoc]
       exact lastNum_snoc _ a _ _
 
@@ -1277,7 +1291,7 @@ theorem rel_multiply (acc acc' : List PItem) (S : St) (x : Rat) (h : PRel acc S)
     subst h3
     refine ⟨⟨out ++ [Val.num (a * x)], some (a * x), none⟩, by simp [step], rfl, ?_, lastNum_snoc _ _ _ _⟩
     simp only [flatRevP, PItem.vals, ← List.append_assoc, absorb_flat, List.map_append, h2, List.map_cons,
-      List.map_nil, PVal.toVal]
+      List.map_nil, PVal.toVal, evalLin_num]
 
 theorem rel_jump (acc : List PItem) (S : St) (n : Option Nat) (h : PRel acc S) (hn : n ≠ some 0) :
     ∃ S', step S (Entry.jmp n) = some S' ∧ PRel (expandJump acc n) S' := by
@@ -1287,7 +1301,7 @@ theorem rel_jump (acc : List PItem) (S : St) (n : Option Nat) (h : PRel acc S) (
   subst h1
   obtain ⟨m, hm⟩ := getD_pos n hn
   refine ⟨⟨out ++ List.replicate (n.getD 1) Val.jump, none, none⟩, by simp [step], rfl, ?_, ?_⟩
-  · simp only [expandJump, flatRevP, PItem.vals, List.map_append, h2, List.map_replicate, PVal.toVal]
+  · simp only [expandJump, flatRevP, PItem.vals, List.map_append, h2, List.map_replicate, PVal.toVal, evalLin_jump]
   · simp [expandJump, lastNum, PItem.vals, hm, List.replicate_succ']
 
 theorem lin_alg' (b e D k : Rat) : b + (e - b) / D * k = b + (e - b) * k / D := by grind
@@ -1324,7 +1338,7 @@ theorem rel_interp (acc acc' : List PItem) (S : St) (n : Option Nat) (isLog : Bo
         apply List.map_congr_left
         intro i _
         cases isLog
-        · simp [PVal.toVal, lin_alg']
+        · simp [PVal.toVal, lin_alg', MontePyVerif.Spec.Shortcut.linValue]
         · simp [PVal.toVal]
       · exact lastNum_snoc _ e _ _
 
@@ -1497,15 +1511,18 @@ theorem sim : ∀ (k : Nat) (ts : List PTok) (acc : List PItem) (S : St), ts.len
 /-- **C08_expand.** For every token list of the grammar G (every kind, every count ≥ 1 or omitted, adjacent
     shortcuts, shortcuts at either end): the parser accepts the list exactly when MCNP's reader does, and then the
     values of the (virtual) value nodes, in list order, ARE what MCNP reads, position by position — numbers (linear
-    interpolates exactly, on rationals), jumps as jumps, logarithmic interpolates as the same symbolic value
+    interpolates exactly, on rationals: `evalLin` replaces the Spec's symbolic `linv a b n k` by its number), jumps as jumps, logarithmic interpolates as the same symbolic value
     `logv a b n k` (whose double the correspondence checks against the defining relation). -/
 theorem C08_expand (ts : List PTok) (hG : ∀ t ∈ ts, PTok.inG t = true) :
-    (parseList ts).map (fun items => (flatP items).map PVal.toVal) = expand (ts.map PTok.toEntry) := by
+    (parseList ts).map (fun items => (flatP items).map PVal.toVal)
+      = (expand (ts.map PTok.toEntry)).map (fun vs => vs.map evalLin) := by
   have := sim ts.length ts [] St.init (Nat.le_refl _) ⟨rfl, rfl, rfl⟩ hG
   unfold parseList
   rw [this]
   unfold expand finish
-  cases run (ts.map PTok.toEntry) St.init <;> rfl
+  cases run (ts.map PTok.toEntry) St.init with
+  | none => rfl
+  | some S => simp only [Option.bind_some]; split <;> rfl
 
 /-- non-vacuity: a list of G with every kind, adjacent shortcuts and shortcuts at both ends -/
 example : ∀ t ∈ [PTok.jmp none, PTok.num 1, PTok.rep (some 2), PTok.mul 3, PTok.lin (some 2), PTok.num 12,
@@ -1516,7 +1533,8 @@ example : ∀ t ∈ [PTok.jmp none, PTok.num 1, PTok.rep (some 2), PTok.mul 3, P
 theorem C08_expand_zero_count_refuted :
     ¬ ((parseList [PTok.num 1, PTok.rep none, PTok.rep (some 0), PTok.rep none]).map
         (fun items => (flatP items).map PVal.toVal)
-      = expand ([PTok.num 1, PTok.rep none, PTok.rep (some 0), PTok.rep none].map PTok.toEntry)) := by decide
+      = (expand ([PTok.num 1, PTok.rep none, PTok.rep (some 0), PTok.rep none].map PTok.toEntry)).map
+          (fun vs => vs.map evalLin)) := by decide
 
 /-! ## Own nodes standing in for copies (`_keep_own_nodes`) -/
 
@@ -1577,5 +1595,34 @@ theorem C08_keep_own_idempotent (own : List Leaf) : keepOwnNodes own own = own :
     intro h
     simp only [keepZip, h o List.mem_cons_self, Bool.not_true, Bool.false_and, Bool.false_eq_true, if_false,
       ih (fun x hx => h x (List.mem_cons_of_mem _ hx))]
+
+/-! ## Rebuilding twice -/
+
+/-- the shortcuts of a rebuilt list (`ListNode._shortcuts` after `update_with_new_values`) -/
+def shortcutsOf (items : List Item) : List (Int × Sc) :=
+  items.filterMap (fun it => match it with | .sc sid s => some (sid, s) | .leaf _ => none)
+
+/-- the shape of a node list: which node ids are plain, which run each shortcut covers -/
+def shape (items : List Item) : List (List Nat) :=
+  items.map (fun it => match it with | .leaf l => [l.id] | .sc _ s => 0 :: s.nodes.map (·.id + 1))
+
+def mkL (i : Nat) (v : Rat) : Leaf := ⟨i, some v, 0, "", "", false, false⟩
+
+/-- `9 9 1 1.0000000009 1.0000000018 r 5`: a chain whose neighbours are within rel_tol but whose ends are not -/
+def driftVals : List Leaf :=
+  [mkL 0 9, mkL 1 9, mkL 2 1, mkL 3 (1 + 9 / 10000000000), mkL 4 (1 + 18 / 10000000000),
+   mkL 5 (1 + 18 / 10000000000), mkL 6 5]
+
+def driftRep : Sc := { orphanJump with kind := Kind.rep, nodes := [mkL 4 0, mkL 5 0], origLen := 2 }
+
+/-- **Rebuilding a list a second time from the same values is NOT the identity in general** (recorded finding
+    C08-F4): which values a repeat takes is decided by closeness to the first node of the run, closeness is not
+    transitive, and the first node of the run differs between the first rebuild (bound at `1.0000000018`, grown
+    backwards to `1.0000000009`) and the second (bound at `1.0000000009`, grown backwards to `1`).  Both node lists
+    are written as texts that read as the values (`C08_recompress`); only values within (rel_tol, 2·rel_tol] of each
+    other can regroup. -/
+theorem C08_rebuild_idempotent_refuted :
+    shape (updateWithNewValues (shortcutsOf (updateWithNewValues [(0, driftRep)] driftVals)) driftVals)
+      ≠ shape (updateWithNewValues [(0, driftRep)] driftVals) := by decide +kernel
 
 end MontePyVerif.C08
